@@ -527,6 +527,8 @@ type c13Result struct {
 	States   int      `json:"states"`
 	Bound    int      `json:"bound"`
 	Capped   bool     `json:"capped"`
+	// Completed is the highest deviation bound whose exploration finished (-1 none); equals Bound unless capped.
+	Completed int      `json:"completed_bound"`
 	Outcomes []string `json:"outcomes"`
 	Failure  string   `json:"failure,omitempty"`
 	Schedule []int    `json:"schedule,omitempty"`
@@ -536,22 +538,42 @@ type c13Result struct {
 func c13Explore(sc c13Script, bound int, prune bool, maxExecs int, stop func() bool) c13Result {
 	outcomes := map[string]bool{}
 	var lastJudge string
-	ex := &vsched.Explorer{Bound: bound, Prune: prune, MaxExecs: maxExecs, Stop: stop}
-	if bound < 0 {
-		ex.Bound = 1 << 30
-	}
-	ex.Exec = func(choices []int, visit func(uint64, int) bool) vsched.Outcome {
-		out, env, mock, s := c13Exec(sc, choices, visit, true, true, false)
-		lastJudge = ""
-		if !out.Pruned && out.Diverged == "" {
-			lastJudge = c13Judge(sc, out, env, mock, s)
-			outcomes[string(env.out)] = true
+	// iterative deviation bounding: 0, 1, 2, ... so that a capped exploration still reports the bound it completed
+	// (the first counterexample found this way also has the fewest deviations)
+	bounds := []int{1 << 30}
+	if bound >= 0 {
+		bounds = nil
+		for b := 0; b <= bound; b++ {
+			bounds = append(bounds, b)
 		}
-		return out
 	}
-	ex.Check = func(choices []int, out vsched.Outcome) string { return lastJudge }
-	ex.Run()
-	res := c13Result{Script: sc.Name, Execs: ex.Execs, Points: ex.Points, States: ex.States, Bound: bound, Capped: ex.Capped, Failure: ex.Failure, Schedule: ex.FailedAt}
+	res := c13Result{Script: sc.Name, Bound: bound, Completed: -1}
+	for _, b := range bounds {
+		ex := &vsched.Explorer{Bound: b, Prune: prune, MaxExecs: maxExecs, Stop: stop}
+		ex.Exec = func(choices []int, visit func(uint64, int) bool) vsched.Outcome {
+			out, env, mock, s := c13Exec(sc, choices, visit, true, true, false)
+			lastJudge = ""
+			if !out.Pruned && out.Diverged == "" {
+				lastJudge = c13Judge(sc, out, env, mock, s)
+				outcomes[string(env.out)] = true
+			}
+			return out
+		}
+		ex.Check = func(choices []int, out vsched.Outcome) string { return lastJudge }
+		ex.Run()
+		res.Execs += ex.Execs
+		res.Points += ex.Points
+		res.States = max(res.States, ex.States)
+		res.Capped = ex.Capped
+		res.Failure, res.Schedule = ex.Failure, ex.FailedAt
+		if ex.Failure != "" || ex.Capped {
+			break
+		}
+		res.Completed = b
+		if bound < 0 {
+			res.Completed = -2 // unbounded exploration closed
+		}
+	}
 	for o := range outcomes {
 		res.Outcomes = append(res.Outcomes, o)
 	}
@@ -590,8 +612,12 @@ func runC13Sub(r *ev.Run) {
 			os.Exit(0)
 		}
 	}
-	for _, sc := range job.Scripts {
-		enc.Encode(c13Explore(sc, job.Bound, job.Prune, job.MaxExec, stop))
+	_ = stop
+	for i, sc := range job.Scripts {
+		// an equal share of what is left for every script still to come
+		share := time.Until(deadline) / time.Duration(len(job.Scripts)-i)
+		scDeadline := time.Now().Add(share)
+		enc.Encode(c13Explore(sc, job.Bound, job.Prune, job.MaxExec, func() bool { return time.Now().After(scDeadline) }))
 	}
 	os.Exit(0)
 }
@@ -629,6 +655,7 @@ func runC13(r *ev.Run) {
 	bound := 2
 	var execs, points, states, capped, outcomes atomic.Int64
 	var mu sync.Mutex
+	completed := map[string]int{}
 	sample := 0
 	handle := func(res c13Result, sc c13Script, b int) {
 		execs.Add(int64(res.Execs))
@@ -638,6 +665,9 @@ func runC13(r *ev.Run) {
 		if res.Capped {
 			capped.Add(1)
 		}
+		mu.Lock()
+		completed[fmt.Sprintf("wanted %d completed %d", b, res.Completed)]++
+		mu.Unlock()
 		if res.Failure != "" {
 			cls := "schedule/" + strings.Join(strings.Fields(strings.SplitN(res.Failure, ":", 2)[0])[:1], "-")
 			if strings.HasPrefix(res.Failure, "instrument error") {
@@ -720,6 +750,7 @@ func runC13(r *ev.Run) {
 	r.Set("scheduling_points", points.Load())
 	r.Set("distinct_transcripts_total", outcomes.Load())
 	r.Set("explorations_capped", capped.Load())
+	r.Set("completed_bounds", completed) // "wanted -1 completed -2" = unbounded exploration closed; completed -1 = not even bound 0
 	if capped.Load() > 0 {
 		r.Cut()
 	}
